@@ -80,6 +80,9 @@ func (s *sim) drawConfig() {
 		if t.Permille("f.pcstarve", 300) {
 			c.DropPrecommitPm = []int{500, 300, 800}[t.Choose("pcstarve.rate", 3)]
 		}
+		if t.Permille("f.split", 300) {
+			c.SplitPolkaPm = []int{300, 600, 1000}[t.Choose("split.rate", 3)]
+		}
 		if t.Permille("f.slow", 350) {
 			c.SlowPm = []int{10, 40, 150}[t.Choose("slowrate", 3)]
 		}
@@ -90,7 +93,7 @@ func (s *sim) drawConfig() {
 	if prof == "fastsync" {
 		c.TargetHeight = int64(t.Range("target.fs", 8, 11))
 		c.LagHeights = int64(t.Range("lag.h", 6, 7))
-		c.Crashes, c.Partitions, c.DropPrecommitPm = 0, 0, 0
+		c.Crashes, c.Partitions, c.DropPrecommitPm, c.SplitPolkaPm = 0, 0, 0, 0
 		if c.DropPm > 20 {
 			c.DropPm = 20
 		}
@@ -146,6 +149,8 @@ func (s *sim) drawConfig() {
 	rc.Config["corrupt_pm"] = c.CorruptPm
 	rc.Config["crashes"] = c.Crashes
 	rc.Config["partitions"] = c.Partitions
+	rc.Config["split_polka_pm"] = c.SplitPolkaPm
+	rc.Config["drop_precommit_pm"] = c.DropPrecommitPm
 	rc.Config["txs"] = c.TxCount
 }
 
